@@ -235,3 +235,77 @@ pub fn eval_clip(case: &J) -> Outcome {
     }
     out
 }
+
+// ------------------------------------------------------------------------------------------------
+// C05: privacy-unit tracking — rows of unit u on D  ==  rows on D restricted to u; no NULL unit / weight
+
+pub fn gen_c05(rng: &mut Rng, _k: usize, _tier: &str) -> J {
+    let w_u = if rng.chance(1, 3) { " WHERE age > 30" } else { "" };
+    let w_o = if rng.chance(1, 3) { " WHERE qty > 2" } else { "" };
+    let jt = *rng.pick(&["JOIN", "JOIN", "LEFT JOIN", "RIGHT JOIN", "FULL JOIN"]);
+    let sql = match rng.below(12) {
+        0 => format!("SELECT id AS a, age AS b, income + 1 AS c FROM users{w_u}"),
+        1 => format!("SELECT user_id AS a, amount * 2 AS b FROM orders{w_o}"),
+        2 => format!("SELECT o.amount AS a, u.city AS b FROM orders AS o {jt} users AS u ON o.user_id = u.id"),
+        3 => format!("SELECT u.age AS a, o.qty AS b FROM users AS u {jt} orders AS o ON u.id = o.user_id{}", if rng.chance(1, 3) { " WHERE o.qty > 1" } else { "" }),
+        4 => format!("SELECT o.amount AS a, p.price AS b FROM orders AS o {jt} products AS p ON o.qty = p.pid"),
+        5 => format!("SELECT p.price AS a, u.age AS b FROM products AS p {jt} users AS u ON p.pid = u.age"),
+        6 => format!("SELECT user_id AS a, sum(amount) AS b, count(qty) AS c FROM orders{w_o} GROUP BY user_id"),
+        7 => format!("SELECT city AS a, count(id) AS b FROM users{w_u} GROUP BY city"),
+        8 => format!("SELECT id AS a, income AS b FROM users{w_u} UNION SELECT user_id AS a, amount AS b FROM orders{w_o}"),
+        9 => format!("SELECT id AS a, age AS b FROM users{w_u} ORDER BY age LIMIT {}", rng.range(1, 6)),
+        10 => format!("WITH t AS (SELECT user_id AS k, sum(amount) AS s FROM orders GROUP BY user_id) SELECT u.age AS a, t.s AS b FROM users AS u {jt} t ON u.id = t.k"),
+        _ => format!("SELECT a.id AS a, b.age AS b FROM users AS a {jt} users AS b ON a.age = b.age"),
+    };
+    json!({"sql": sql, "strategy": if rng.chance(2, 3) { "hard" } else { "soft" }, "data_seed": rng.next() % 100000, "n_users": rng.range(2, 12), "max_orders": rng.range(0, 4), "units": [rng.below(12), rng.below(12)]})
+}
+
+fn multiset(rows: &[Vec<Cell>]) -> Vec<String> { let mut v: Vec<String> = rows.iter().map(|r| r.iter().map(|c| c.key()).collect::<Vec<_>>().join("|")).collect(); v.sort(); v }
+
+/// which operator class does the query exercise (part of the finding key)
+fn c05_class(sql: &str) -> &'static str {
+    if sql.contains("LIMIT") { "limit" } else if sql.contains("FULL JOIN") { "full-join" } else if sql.contains("RIGHT JOIN") { "right-join" } else if sql.contains("LEFT JOIN") { "left-join" }
+    else if sql.contains("UNION") { "union" } else if sql.contains("JOIN") { "inner-join" } else if sql.contains("GROUP BY") { "reduce" } else { "map" }
+}
+
+pub fn eval_c05(case: &J) -> Outcome {
+    use qrlew::privacy_unit_tracking::Strategy;
+    let mut out = Outcome::new();
+    let sql = case["sql"].as_str().unwrap();
+    let cls = c05_class(sql);
+    out.tag(&format!("class={cls}"));
+    let rels = world();
+    let rel = match parse_rel(sql) { Ok(r) => r, Err(_) => { out.tag("trivial"); out.tag("parse-fail"); return out; } };
+    let strategy = if case["strategy"] == "soft" { Strategy::Soft } else { Strategy::Hard };
+    let pup = match guarded(|| rel.rewrite_as_privacy_unit_preserving(&rels, None, privacy_unit(), DpParameters::from_epsilon_delta(1.0, 1e-4), Some(strategy))) {
+        Ok(Ok(d)) => d, Ok(Err(_)) => { out.tag("trivial"); out.tag("pup-refused"); return out; }
+        Err((loc, msg)) => { out.tag("trivial"); out.fail(&format!("C18/c05/rewrite-panic/{}", site_file(&loc)), format!("{sql}: {msg}")); return out; }
+    };
+    let has_pu = pup.relation().schema().iter().any(|f| f.name() == "_PRIVACY_UNIT_");
+    if !has_pu { out.tag("trivial"); out.tag("public-result"); return out; }
+    let data = data_of(case);
+    let db = data.load(RandomMode::Const(0.25));
+    let full = match db.run(pup.relation()) { Ok(x) => x, Err(e) => { out.tag("trivial"); out.fail("C17/sqlite/pup-not-executable", format!("{sql}: {e}")); return out; } };
+    let pi = full.0.iter().position(|n| n == "_PRIVACY_UNIT_").unwrap();
+    let wi = full.0.iter().position(|n| n == "_PRIVACY_UNIT_WEIGHT_");
+    if full.1.is_empty() { out.tag("trivial"); }
+    // every row carries a non-null unit and weight
+    if let Some(r) = full.1.iter().find(|r| r[pi] == Cell::Null || wi.map_or(false, |w| r[w] == Cell::Null)) {
+        out.fail(&format!("C05/exec/null-unit/{cls}"), format!("{sql} ({:?}): the privacy-unit-preserving result contains a row without privacy unit or weight: {:?}", strategy, r));
+    }
+    let n_users = data.users.len() as u64;
+    for u in case["units"].as_array().unwrap() {
+        let uid = (u.as_u64().unwrap() % n_users.max(1)) as i64;
+        let tag = Cell::Text(format!("md5_{uid}"));
+        let mine: Vec<Vec<Cell>> = full.1.iter().filter(|r| r[pi] == tag).cloned().collect();
+        let dbu = data.only_user(uid).load(RandomMode::Const(0.25));
+        let alone = match dbu.run(pup.relation()) { Ok(x) => x.1, Err(_) => continue };
+        let alone_mine: Vec<Vec<Cell>> = alone.iter().filter(|r| r[pi] == tag).cloned().collect();
+        if !mine.is_empty() { out.tag("unit-has-rows"); }
+        if multiset(&mine) != multiset(&alone_mine) {
+            out.fail(&format!("C05/exec/interference/{cls}"), format!("{sql} ({:?}): rows attributed to unit {uid} on the full database {:?} differ from those obtained after deleting every other unit's protected rows {:?}", strategy, mine.iter().take(5).collect::<Vec<_>>(), alone_mine.iter().take(5).collect::<Vec<_>>()));
+            break;
+        }
+    }
+    out
+}
